@@ -331,7 +331,8 @@ func (p *textParser) node(sb *strings.Builder) {
 				path = "s" + vl.Hex(u)
 			}
 		default:
-			path = "s" + vl.Hex(u)
+			// keys are compared after UTF-8 sanitising: JSON cannot carry other bytes
+			path = "s" + vl.Hex(strings.ToValidUTF8(u, "\uFFFD"))
 		}
 	default:
 		j := 0
